@@ -670,6 +670,102 @@ def compare(res, pending, model):
                 break
 
 
+# ------------------------------------------------------------------------------------------
+# the synchronous API on real threads (the simulator cannot host them): `unregister_service(info)` then `close()`
+
+SYNC_FAST = 40  # ms standing for the 125 ms between goodbyes (all protocol timers of _core shortened alike)
+SYNC_GAPS = [0, 50, 124, 126, 260]  # ms (unscaled) between the return of unregister_service and the call of close
+
+
+def sync_case(gap_ms, n_services, shared):
+    """thread-backed instance (no running loop in the calling thread), recording transports on the real loop
+    (harness/c17_threads.Rig).  Returns the observation: how many goodbye datagrams (TTL-0 PTR, SRV, TXT of the service,
+    + addresses unless the host is shared) were multicast for the unregistered service."""
+    import socket
+    import time
+
+    from . import c17_threads as T
+    from zeroconf import DNSIncoming, ServiceInfo, Zeroconf
+
+    typ = "_sync._tcp.local."
+    obs = {}
+    with T.Rig(fast=SYNC_FAST) as rig:
+        zc = Zeroconf(interfaces=["10.0.0.1"])
+        try:
+            infos = [ServiceInfo(typ, "s%d.%s" % (i, typ), 80 + i, addresses=[socket.inet_aton("10.0.0.1")],
+                                 server="hs.local." if (shared or i == 0) else "hs%d.local." % i) for i in range(n_services)]
+            for info in infos:
+                zc.register_service(info, cooperating_responders=True)
+            n0 = len(rig.log)
+            t_call = time.monotonic()
+            zc.unregister_service(infos[0])
+            t_ret = time.monotonic()
+            gap = gap_ms * SYNC_FAST / 125.0 / 1000.0
+            if gap:
+                time.sleep(gap)
+            t_close = time.monotonic()
+            zc.close()
+            t_closed = time.monotonic()
+            time.sleep(4 * SYNC_FAST / 1000.0)
+            name = infos[0].name
+            goodbyes = []
+            late_positive = []
+            for (t, kind, data, addr) in rig.log[n0:]:
+                if kind != "sent":
+                    continue
+                m = DNSIncoming(data)
+                if not m.valid or m.is_query():
+                    continue
+                recs = list(m.answers())
+                mine = [r for r in recs if r.name == name or getattr(r, "alias", None) == name]
+                if mine and all(int(r.ttl) == 0 for r in mine):
+                    kinds = sorted({type(r).__name__ for r in mine})
+                    goodbyes.append([round((t - t_call) * 1000), kinds, addr[0] if addr else None])
+                elif mine and goodbyes:
+                    late_positive.append(round((t - t_call) * 1000))
+            obs = {"unregister_returned_ms": round((t_ret - t_call) * 1000), "close_called_ms": round((t_close - t_call) * 1000),
+                   "close_returned_ms": round((t_closed - t_call) * 1000), "goodbyes": goodbyes, "positive_after_goodbye": late_positive}
+        finally:
+            if not zc.done:
+                try:
+                    zc.close()
+                except Exception:  # noqa: BLE001
+                    pass
+    return obs
+
+
+def sync_oracle(case, obs, res):
+    """the English sentence on the synchronous API: the goodbye copies are multicast three times, whenever close() follows"""
+    res.evaluations += 1
+    res.count("sync:gap=%d" % case["gap_ms"])
+    gb = obs["goodbyes"]
+    full = [g for g in gb if {"DNSPointer", "DNSService", "DNSText"} <= set(g[1]) and g[2] == "224.0.0.251"]
+    if len(full) < 3:
+        res.violate("C08:sync-unregister-returns-before-goodbyes",
+                    "unregister_service(info) returned after %d ms (before its goodbye sequence); close() called %d ms later: only %d of the 3 goodbye datagrams "
+                    "were multicast (at %r ms; the protocol interval is scaled to %d ms)"
+                    % (obs["unregister_returned_ms"], obs["close_called_ms"] - obs["unregister_returned_ms"], len(full), [g[0] for g in gb], SYNC_FAST),
+                    dict(case, observed=obs))
+    if obs["positive_after_goodbye"]:
+        res.violate("C08:sync-record-after-goodbye", "a record of the unregistered service left with a non-zero TTL after a goodbye (sync API)", dict(case, observed=obs))
+    if len(full) >= 3:
+        res.nontriv(("sync", case["gap_ms"], case["n_services"], case["shared"]))
+
+
+def run_sync(res, seed):
+    # one service (close() finds the registry empty and sets `done` at once) at every gap; two services (close() spends 250 ms
+    # on the other service's goodbyes, during which the first sequence can finish) at two gaps
+    cases = [{"stream": "sync", "gap_ms": gap, "n_services": 1, "shared": False} for gap in SYNC_GAPS]
+    cases += [{"stream": "sync", "gap_ms": SYNC_GAPS[(seed + k) % len(SYNC_GAPS)], "n_services": 2, "shared": bool((seed + k) % 2)} for k in range(2)]
+    for case in cases:
+        try:
+            obs = sync_case(case["gap_ms"], case["n_services"], case["shared"])
+        except Exception as ex:  # noqa: BLE001
+            res.notes.append("sync case %r could not run: %r" % (case, ex))
+            continue
+        sync_oracle(case, obs, res)
+
+
 def run(ctx):
     res = C.Result("C08")
     rng = C.rng_for(ctx["seed"], "c08")
@@ -681,8 +777,13 @@ def run(ctx):
                 "{-200..1300 ms} around the queries and the queue deadlines; non-trivial = distinct (withdrawals with answers queued, block kinds, trace length)")
     lines, pending = [], []
     for name, body in C.load_corpus("C08"):
-        evaluate(body["scenario"] if "scenario" in body else body, res, lines, pending)
+        if body.get("stream") == "sync" or ("case" in body and body["case"].get("stream") == "sync"):
+            case = body.get("case", body)
+            sync_oracle(case, sync_case(case["gap_ms"], case["n_services"], case["shared"]), res)
+        else:
+            evaluate(body["scenario"] if "scenario" in body else body, res, lines, pending)
         res.count("corpus")
+    run_sync(res, ctx["seed"])
     for i in range(n):
         evaluate(gen_scenario(rng, i), res, lines, pending)
     if ctx["driver_ok"]:
@@ -695,6 +796,12 @@ def run(ctx):
 
 
 def replay(body):
+    case = body.get("case", body)
+    if case.get("stream") == "sync":
+        res = C.Result("C08")
+        obs = sync_case(case["gap_ms"], case["n_services"], case["shared"])
+        sync_oracle(case, obs, res)
+        return {"violates": bool(res.violations), "violations": [(v["sig"], v["what"]) for v in res.violations], "observed": obs}
     sc = body["case"]["scenario"] if "case" in body else body["scenario"]
     res = C.Result("C08")
     lines, pending = [], []
